@@ -100,16 +100,17 @@ ContainsAns(p) == {s \in Present : CentreOf[s] = p}
 CrossAns(e) == IF CrossedBy[e] \in Present THEN 2 ELSE 0
 FindAllAns == TotalEdges(Present)
 
+\* A query object created in an earlier epoch may be reused once the index is fresh again
+\* (its iterator re-seeks in the current cell map on every call); the query itself does not
+\* apply pending updates, so it is only used while the index is fresh.
 Contains(p) ==
-    /\ cpq = epoch
-    /\ MaybeApplyVars
-    /\ UNCHANGED <<shapes, nextID, epoch, cpq, ceq, eff, inv, lidx>>
-    /\ h' = Log([a |-> "Contains", x |-> p, r |-> ContainsAns(p), st |-> StAfterApply])
+    /\ cpq # -1 /\ status = "fresh"
+    /\ UNCHANGED <<shapes, nextID, pendPos, status, indexed, epoch, cpq, ceq, eff, inv, lidx>>
+    /\ h' = Log([a |-> "Contains", x |-> p, r |-> ContainsAns(p), st |-> St])
 Cross(e) ==
-    /\ ceq = epoch
-    /\ MaybeApplyVars
-    /\ UNCHANGED <<shapes, nextID, epoch, cpq, ceq, eff, inv, lidx>>
-    /\ h' = Log([a |-> "Cross", x |-> e, r |-> CrossAns(e), st |-> StAfterApply])
+    /\ ceq # -1 /\ status = "fresh"
+    /\ UNCHANGED <<shapes, nextID, pendPos, status, indexed, epoch, cpq, ceq, eff, inv, lidx>>
+    /\ h' = Log([a |-> "Cross", x |-> e, r |-> CrossAns(e), st |-> St])
 \* a fresh EdgeQuery (interiors excluded, all results): touches the cell map only on the optimized path
 FindAll(p) ==
     /\ IF TotalEdges(Present) > BruteForceLimit
@@ -163,10 +164,11 @@ EqNext ==
         \/ \E d \in {"near", "far"} : IsDistanceLess(q, t, d)
 
 \* ====================================================================== loop
-Objs == {"L", "PG"}
+Objs == {"L", "PG", "PG2"}   \* PG: shell with a hole; PG2: two disjoint shells, the smaller one first
 LPoints == {"in", "out", "hole"}
-\* containment before any inversion: the polygon's hole is outside it, L has no hole
-Base(o, p) == IF p = "in" THEN TRUE ELSE IF p = "out" THEN FALSE ELSE (o = "L")
+\* containment before any inversion: "hole" is the centre of PG's hole (outside PG, inside L)
+\* and, for PG2, the centre of its second shell (inside)
+Base(o, p) == IF p = "in" THEN TRUE ELSE IF p = "out" THEN FALSE ELSE (o # "PG")
 LoopContainsAns(o, p) == IF inv[o] = 0 THEN Base(o, p) ELSE ~Base(o, p)
 
 Invert(o) ==
